@@ -462,6 +462,16 @@ def run_check(pid, level, body):
     return c.finish()
 
 
+def rejected(stdout):
+    """(record number, reason) pairs printed by a *Trace.tla module for the records it rejects."""
+    out = []
+    for ln in stdout.splitlines():
+        if ln.startswith('"{') and "rejected" in ln:
+            j = json.loads(json.loads(ln))
+            out.append((int(j["rejected"]), j["why"]))
+    return out
+
+
 def parse_walks(stdout):
     """Split the EmitWalk lines of a `tlc -simulate -workers 1` run into behaviours (lvl==2 starts one; a line whose
     lvl is not last+1 is a re-evaluated state, not a step)."""
